@@ -165,9 +165,7 @@ func Build(sc *Scenario, opt Options) *Run {
 				if (kind == "init" || kind == "aps") && (!done || always) {
 					done = true
 					for _, name := range lookups {
-						r.Log.Add("lookup", name)
-						r.App.GetComponentByName(name)
-						r.Log.Add("lookup-end", name)
+						r.UserLookup(name)
 					}
 				}
 			}
@@ -313,6 +311,18 @@ func (r *Run) Go() {
 			runtime.Gosched()
 		}
 	}
+}
+
+// UserLookup is a lookup issued by user code (a component's callback, a caller after Run): logged in the
+// lifecycle log and marked in the registry trace, so that histories can tell errors that were delivered
+// to user code from errors the container swallowed itself.
+func (r *Run) UserLookup(name string) (any, error) {
+	r.Log.Add("lookup", name)
+	r.Tracer.Mark("user-lookup", "call", name)
+	v, err := r.App.GetComponentByName(name)
+	r.Tracer.Mark("user-lookup", "ret", name)
+	r.Log.Add("lookup-end", name)
+	return v, err
 }
 
 func (r *Run) progress() int {
